@@ -70,7 +70,7 @@ def gen_sm(rng, nops):
 
 def sm_suite(tier, rng, replay):
     cases = []
-    if replay and replay.get("suite") == "sendmachine":
+    if replay and replay.get("suite") == "sendmachine" and replay.get("cfg", {}).get("hs_timeout_ms") is None:
         cases.append({"cfg": replay["cfg"], "ops": replay["ops"], "origin": "replay"})
     elif not replay:
         d = os.path.join(vlib.VERIF, "corpus", "C18sm")
@@ -85,9 +85,28 @@ def sm_suite(tier, rng, replay):
             cases.append(gen_sm(r, r.range(6, 16)))
     for c in cases:
         c["coq_ops"] = [sm_coq(o) for o in c["ops"]]
-    return Suite("sendmachine", "sendmachine", ["From V.model Require Import SendMachine."],
-                 [{"key": "sendmachine", "optype": "sop", "cases": cases, "model": "cmp_run srun",
-                   "monitors": {"c18sm": "sm_monitor"}}])
+    groups = [{"key": "sendmachine", "optype": "sop", "cases": cases, "model": "cmp_run srun",
+               "monitors": {"c18sm": "sm_monitor"}}]
+    if not replay or replay.get("cfg", {}).get("hs_timeout_ms") is not None:
+        # a handshake time-out configured as zero / very short: the sender's wait for the handshake ends at once;
+        # whatever the connection then does, nothing but handshake-type messages may be written and nothing may be
+        # acknowledged without having been written.  Monitor only (the model has no zero-length wait).
+        zcases = []
+        if replay:
+            zcases.append({"cfg": replay["cfg"], "ops": replay["ops"], "origin": "replay"})
+        else:
+            for ms in (0, 1):
+                for ops in ([["send", 2], ["connect"], ["writes"], ["send", 4], ["send", 7], ["writes"], ["drop"], ["writes"]],
+                            [["connect"], ["send", 2], ["send", 3], ["writes"], ["drop"], ["connect"], ["writes"], ["drop"], ["writes"]]):
+                    zcases.append({"cfg": {"hs_timeout_ms": ms}, "ops": ops, "origin": "scripted-zero-handshake-timeout"})
+        for c in zcases:
+            c["coq_ops"] = [sm_coq(o) for o in c["ops"]]
+        groups.append({"key": "sendmachine-hs0", "optype": "sop", "cases": zcases, "monitors": {"c18sm": "sm_monitor"}})
+    for g in groups:
+        for c in g["cases"]:
+            if "coq_ops" not in c:
+                c["coq_ops"] = [sm_coq(o) for o in c["ops"]]
+    return Suite("sendmachine", "sendmachine", ["From V.model Require Import SendMachine."], groups)
 
 
 def suites(tier, rng, replay):
